@@ -135,6 +135,9 @@ def run(modname: str, shards: list, nproc: int | None = None, order_seed: int = 
     if order_seed:
         import random
         random.Random(order_seed).shuffle(idx)
+    weight = getattr(importlib.import_module(modname), 'shard_weight', None)
+    if weight is not None:
+        idx.sort(key=lambda i: -weight(shards[i]))        # stable: heavy shards first, seed order within a weight class
     jobs = [(modname, shards[i]) for i in idx]
     total = Result()
     done = 0
